@@ -41,6 +41,8 @@ def apply(ctx, ba, model, op, idx, val=None):
     """apply one operation to both; returns nothing, raises Violation on disagreement"""
     n = len(model)
     valid_idx = isinstance(idx, int) and 0 <= idx < n
+    if isinstance(idx, float) and 0 <= idx <= n - 1:
+        return  # an in-range non-integral index is not covered by the statement (rejecting it or truncating it are both arguable)
     where = f"after {op}({idx}{'' if val is None else ',' + repr(val)}) on size {n}"
     ctx.count(f"op.{op}")
     if op in ("set_bit", "clear_bit"):
@@ -107,7 +109,7 @@ def wl_exhaustive(ctx, rng, case):
     case.desc = {"size": n, "kind": "every op x every index x base states"}
     ctx.observe("sizes", n)
     ctx.observe("size_mod_8", n % 8)
-    idxs = list(range(-2, n + 2)) + [n + 7, n + 8, 8 * math.ceil(n / 8), -n, 10**6]
+    idxs = list(range(-2, n + 2)) + [n + 7, n + 8, 8 * math.ceil(n / 8), -n, 10**6, -0.5, -0.999, n - 0.5, n + 0.25, float(n), -1.0]
     nstates = 0
     for st in base_states(n, rng):
         nstates += 1
